@@ -2,6 +2,7 @@ import GapicModel.Regex.Match
 import GapicModel.Pinned.Regexes
 import GapicModel.Pinned.Tables
 import GapicModel.Pinned.CharClass
+import GapicModel.PyRt
 /-
 C15 — gapic_metadata.json and the keyword fix-up table.
 
@@ -16,8 +17,18 @@ Follows, statement by statement,
                                  Jinja's `sort` is case-insensitive by default: its key is `name.lower()`)
   * templates services/%service/client.py.j2, async_client.py.j2, __init__.py.j2 : which classes and
                                  methods are emitted (`emitted*` below).
+                                 + the three fixed rows of `opts.add_iam_methods`
+                                 + `leave_Call` of the emitted transformer (`fixCall`): positional / keyword /
+                                 control arguments of an old-style call -> `request={…}` + control keywords
 Strings are `List Char`; identifiers are ASCII (protobuf grammar), so `.lower()` is ASCII lower-casing.
 A Python dict / protobuf map is an association list whose keys are unique (`upsert` keeps that).
+
+NOT modelled (anchor files): `MessageToJson(sort_keys=True)` text layout (the check parses the JSON);
+the constant header fields schema/comment/language; `Naming` (namespace, versioned module name are inputs:
+C11); how `is_internal` is derived from the service yaml (input flag: C16); `Field.required` / `Field.name`'s
+`is_proto_plus_type` (input flags); mixin and legacy-IAM *client methods* (not RPCs of the target package:
+the metadata does not list them — checked by T3 on APIs that have them, C17 owns their surface); libcst's
+traversal (bottom-up `leave_Call` over nested calls is replayed by the harness); `fix_files` directory walking.
 -/
 namespace GapicModel.Model.Metadata
 open GapicModel.Regex
@@ -26,7 +37,8 @@ abbrev Str := List Char
 
 /-! ### strings -/
 
-def lower (s : Str) : Str := s.map Char.toLower
+/-- `str.lower()` on ASCII identifiers: the run-time library's map, shared with the translated functions -/
+def lower (s : Str) : Str := PyRt.lower s
 
 /-- `gapic.utils.to_snake_case` -/
 def toSnakeCase (s : Str) : Str :=
@@ -264,5 +276,57 @@ def fixupMethods (api : Api) : List MethodS :=
 /-- METHOD_TO_PARAMS as written (a dict literal: for equal keys the LAST value wins) -/
 def fixupTable (api : Api) : List (Str × List Str) :=
   (fixupMethods api).map fun m => (toSnakeCase m.name, legacyNames m)
+
+/-- the three rows appended under `{% if opts.add_iam_methods %}` -/
+def iamRows : List (Str × List Str) :=
+  [("get_iam_policy".toList, ["resource".toList, "options".toList]),
+   ("set_iam_policy".toList, ["resource".toList, "policy".toList]),
+   ("test_iam_permissions".toList, ["resource".toList, "permissions".toList])]
+
+/-- METHOD_TO_PARAMS with the `add-iam-methods` option -/
+def fixupTableOpt (api : Api) (addIam : Bool) : List (Str × List Str) :=
+  fixupTable api ++ (if addIam then iamRows else [])
+
+/-- `dict[key]` of a dict literal: the LAST value written under the key -/
+def dictGet (tbl : List (Str × List Str)) (k : Str) : Option (List Str) :=
+  (tbl.reverse.find? (fun e => e.1 == k)).map (·.2)
+
+/-! ### `leave_Call` of the emitted `<module>CallTransformer` -/
+
+/-- one argument of a call: `keyword=value` or positional; the value is opaque (an id) -/
+structure Arg where
+  kw : Option Str
+  val : Nat
+deriving Repr, DecidableEq
+
+def ctrlParams : List Str := ["retry".toList, "timeout".toList, "metadata".toList]
+
+inductive Fixed where
+  | unchanged
+  | rewritten (request : List (Str × Nat)) (ctrl : List (Str × Nat))
+deriving Repr, DecidableEq
+
+def zipPairs {α β : Type} : List α → List β → List (α × β)
+  | a :: as, b :: bs => (a, b) :: zipPairs as bs
+  | _, _ => []
+
+/-- `leave_Call` for a call `x.<key>(args…)`.  NOTE what the code does with keyword arguments: they are
+zipped POSITIONALLY with the remaining parameter names (`zip(kword_params, args + kwargs)`); the
+keyword's own name is dropped. -/
+def fixCall (tbl : List (Str × List Str)) (key : Str) (args : List Arg) : Fixed :=
+  match dictGet tbl key with
+  | none => .unchanged                                   -- KeyError: not a method of the API
+  | some params =>
+    let p := partition (fun a : Arg => a.kw.isNone) args  -- (positional, keyword)
+    let pos := p.1
+    let kws := p.2
+    if kws.any (fun a => a.kw == some "request".toList) then .unchanged   -- already fixed
+    else
+      let q := partition (fun a : Arg => !(ctrlParams.contains (a.kw.getD []))) kws   -- (kwargs, ctrl_kwargs)
+      let args' := pos.take params.length
+      let ctrlArgs := pos.drop params.length
+      let ctrl := q.2.map (fun a => (a.kw.getD [], a.val)) ++
+                  (zipPairs ctrlArgs ctrlParams).map (fun x => (x.2, x.1.val))
+      .rewritten (zipPairs params ((args' ++ q.1).map (·.val))) ctrl
 
 end GapicModel.Model.Metadata
